@@ -1,28 +1,7 @@
-import DirectVerif.Model.Basic
+import DirectVerif.Driver.Common
 import DirectVerif.Model.Crop
-import DirectVerif.Model.Shift
-/-!
-Line-protocol driver: one operation per input line, one answer line per operation.
-
-  OPNAME g0 | g1 | g2 …      (groups of space-separated integers separated by `|`)
-
-Answers: `ok g0 | g1 …` or `err <Kind>`.   Run: `lake env lean --run Driver.lean < ops > out`.
--/
-open DirectVerif
-
-def parseGroups (s : String) : Option (List (List Int)) :=
-  let groups := s.splitOn "|"
-  groups.mapM fun g =>
-    (g.splitOn " ").filter (· ≠ "") |>.mapM String.toInt?
-
-def fmtInts (xs : List Int) : String := " ".intercalate (xs.map toString)
-def fmtGroups (gs : List (List Int)) : String := " | ".intercalate (gs.map fmtInts)
-def okT (t : Tensor Int) : String := "ok " ++ fmtGroups [t.shape.map Int.ofNat, t.data]
-def nats (xs : List Int) : List Nat := xs.map Int.toNat
-
-def mkT (shape data : List Int) : Option (Tensor Int) :=
-  let t : Tensor Int := { shape := nats shape, data := data }
-  if t.wellFormed then some t else none
+namespace DirectVerif.Driver.C10
+open DirectVerif DirectVerif.Driver
 
 /-- n-D `center_crop` on the last two axes -/
 def opCenterCrop (t : Tensor Int) (s : List Int) : String :=
@@ -89,52 +68,24 @@ def opCCC (t : Tensor Int) (crop : List Int) (offset : Nat) : String :=
   if starts.any (· < 0) then "err ValueError" else
   opBbox t (starts ++ sizes) 0
 
-def step (line : String) : String :=
-  match line.trimAscii.toString.splitOn " " with
-  | [] => "err BadOp"
-  | op :: _ =>
-    let rest := (line.trimAscii.toString.drop op.length).toString
-    match parseGroups rest with
+def step (op : String) (gs : List (List Int)) : String :=
+  match op, gs with
+  | "center_crop", [shape, data, s] =>
+    match mkT shape data with
+    | some t => opCenterCrop t s
     | none => "err BadOp"
-    | some gs =>
-      match op, gs with
-      | "roll", [shape, data, shifts, dims] =>
-        match mkT shape data with
-        | some t => if shifts.length ≠ dims.length then "err ValueError" else okT (Shift.roll t shifts (nats dims))
-        | none => "err BadOp"
-      | "fftshift", [shape, data, dims] =>
-        match mkT shape data with
-        | some t => okT (Shift.fftshift t (nats dims))
-        | none => "err BadOp"
-      | "ifftshift", [shape, data, dims] =>
-        match mkT shape data with
-        | some t => okT (Shift.ifftshift t (nats dims))
-        | none => "err BadOp"
-      | "center_crop", [shape, data, s] =>
-        match mkT shape data with
-        | some t => opCenterCrop t s
-        | none => "err BadOp"
-      | "bbox", [shape, data, bbox, [fill]] =>
-        match mkT shape data with
-        | some t => opBbox t bbox fill
-        | none => "err BadOp"
-      | "ccc", [shape, data, crop, [offset]] =>
-        match mkT shape data with
-        | some t => opCCC t crop offset.toNat
-        | none => "err BadOp"
-      | "pad", [shape, data, target, [fill]] =>
-        match mkT shape data with
-        | some t => opPad t target fill
-        | none => "err BadOp"
-      | _, _ => "err BadOp"
+  | "bbox", [shape, data, bbox, [fill]] =>
+    match mkT shape data with
+    | some t => opBbox t bbox fill
+    | none => "err BadOp"
+  | "ccc", [shape, data, crop, [offset]] =>
+    match mkT shape data with
+    | some t => opCCC t crop offset.toNat
+    | none => "err BadOp"
+  | "pad", [shape, data, target, [fill]] =>
+    match mkT shape data with
+    | some t => opPad t target fill
+    | none => "err BadOp"
+  | _, _ => "err BadOp"
 
-partial def loop (h : IO.FS.Stream) (out : IO.FS.Stream) : IO Unit := do
-  let line ← h.getLine
-  if line.isEmpty then return ()
-  out.putStrLn (step line)
-  loop h out
-
-def main : IO Unit := do
-  let out ← IO.getStdout
-  loop (← IO.getStdin) out
-  out.flush
+end DirectVerif.Driver.C10
